@@ -72,12 +72,14 @@ class C04(Prop):
                  consts=dict(base, MaxRows=2, PredSet="atoms", InsSel="few", Depth=4)),
             dict(name="edges_preds", mode="edges", sample=None if big else 3000,
                  consts=dict(base, MaxRows=1, PredSet="all", InsSel="few", Depth=3)),
-            dict(name="walks", mode="walks", depth=8, num=4000 if big else 500,
-                 consts=dict(base, MaxRows=3, PredSet="all", InsSel="all", Depth=8)),
+            dict(name="walks", mode="walks", depth=8, num=3000 if big else 400,
+                 consts=dict(base, MaxRows=3, PredSet="atoms", InsSel="few", Depth=8)),
         ]
         if big:
-            g.append(dict(name="walks_long", mode="walks", depth=20, num=1500, seed_offset=7,
-                          consts=dict(base, MaxRows=3, PredSet="all", InsSel="all", Depth=20)))
+            g.append(dict(name="walks_long", mode="walks", depth=20, num=1000, seed_offset=7,
+                          consts=dict(base, MaxRows=3, PredSet="atoms", InsSel="few", Depth=20)))
+            g.append(dict(name="walks_preds", mode="walks", depth=6, num=300, seed_offset=8,
+                          consts=dict(base, MaxRows=3, PredSet="all", InsSel="few", Depth=6)))
         return g
 
     def nontrivial(self, ops):
@@ -158,8 +160,11 @@ class C04(Prop):
             name = {1: target, 2: f"{sc}.{target}", 3: f"db1.{sc}.{target}"}[q]
             fq = f"DB1.{sc}.{phys}"
             if what in ("createtable", "createview", "droptable", "dropview"):
-                raw.execute(f"drop view if exists {fq}")
-                raw.execute(f"drop table if exists {fq}")
+                for stmt in (f"drop view if exists {fq}", f"drop table if exists {fq}"):
+                    try:
+                        raw.execute(stmt)
+                    except Exception:
+                        pass  # the object exists with the other kind: the other statement removes it
             if what == "droptable":
                 raw.execute(f"create table {fq} (x int)")
             if what == "dropview":
